@@ -270,4 +270,577 @@ theorem appendE_ents (l : Log) (es : List Entry) : (appendE l es).ents = l.ents 
 theorem removeFrom_ents (l : Log) (d : Nat) : (removeFrom l d).ents = l.ents.filter (fun e => e.index < d) := rfl
 theorem resetL_ents (l : Log) : (resetL l).ents = [] := rfl
 
+/-! ## lookups in gap-free lists -/
+
+theorem findE_mem_contig {f : Nat} {es : List Entry} (h : contigFrom f es = true) {e : Entry} (he : e ∈ es) :
+    findE es e.index = some e := by
+  induction es generalizing f with
+  | nil => simp at he
+  | cons x xs ih =>
+    have hc := (contigFrom_cons f x xs).mp h
+    rcases List.mem_cons.mp he with rfl | he'
+    · simp [findE]
+    · have hge := contigFrom_index_ge hc.2 e he'
+      have hne : (x.index == e.index) = false := by simp; omega
+      simp only [findE, List.find?_cons, hne]
+      exact ih hc.2 he'
+
+theorem findE_some_index {es : List Entry} {i : Nat} {z : Entry} (h : findE es i = some z) :
+    z ∈ es ∧ z.index = i := by
+  unfold findE at h
+  exact ⟨List.mem_of_find?_eq_some h, by simpa using List.find?_some h⟩
+
+structure LogOK (l : Log) : Prop where
+  gap : gapFree l.ents = true
+  pos : ∀ e ∈ l.ents, 1 ≤ e.index
+  seg : segOK l = true
+
+theorem Log.lastIdx_eq (l : Log) : l.lastIdx = lastOf l.ents := rfl
+theorem Log.firstIdx_eq (l : Log) : l.firstIdx = firstOf l.ents := rfl
+
+theorem lastOf_nil : lastOf [] = 0 := rfl
+
+theorem lastOf_pos {es : List Entry} (h1 : ∀ e ∈ es, 1 ≤ e.index) (hne : es ≠ []) : 1 ≤ lastOf es := by
+  unfold lastOf
+  cases h : es.getLast? with
+  | none => simp [List.getLast?_eq_none_iff] at h; exact absurd h hne
+  | some e => exact h1 e (List.mem_of_getLast? h)
+
+/-- bounds of a non-empty gap-free list. -/
+theorem gapFree_bounds {es : List Entry} (hg : gapFree es = true) (hne : es ≠ []) :
+    lastOf es + 1 = firstOf es + es.length ∧ 0 < es.length := by
+  have hl := lastOf_contig ((gapFree_iff _).mp hg) hne
+  have hpos : 0 < es.length := List.length_pos_iff.mpr hne
+  omega
+
+theorem mem_bounds {es : List Entry} (hg : gapFree es = true) {e : Entry} (he : e ∈ es) :
+    firstOf es ≤ e.index ∧ e.index ≤ lastOf es := by
+  have hne : es ≠ [] := List.ne_nil_of_mem he
+  have hb := gapFree_bounds hg hne
+  have h1 := contigFrom_index_ge ((gapFree_iff _).mp hg) e he
+  have h2 := contigFrom_index_lt ((gapFree_iff _).mp hg) e he
+  omega
+
+/-- `entry_term` inside the log is the term of the entry stored there. -/
+theorem entryTerm_mem {l : Log} (hg : gapFree l.ents = true) (h1 : ∀ e ∈ l.ents, 1 ≤ e.index)
+    {e : Entry} (he : e ∈ l.ents) : l.entryTerm e.index = some e.term := by
+  have hne : l.ents ≠ [] := List.ne_nil_of_mem he
+  have hb := mem_bounds hg he
+  have hp := lastOf_pos h1 hne
+  unfold Log.entryTerm
+  rw [Log.lastIdx_eq, Log.firstIdx_eq]
+  have hc : (lastOf l.ents == 0 || decide (e.index < firstOf l.ents) || decide (e.index > lastOf l.ents)) = false := by
+    simp only [Bool.or_eq_false_iff, beq_eq_false_iff_ne, ne_eq, decide_eq_false_iff_not]; omega
+  rw [hc]
+  simp [findE_mem_contig ((gapFree_iff _).mp hg) he]
+
+/-- inside the index range of a gap-free log there is an entry, and `entry_term` reports its term. -/
+theorem entryTerm_inrange {l : Log} (hg : gapFree l.ents = true) (h1 : ∀ e ∈ l.ents, 1 ≤ e.index)
+    (hne : l.ents ≠ []) {i : Nat} (hlo : l.firstIdx ≤ i) (hhi : i ≤ l.lastIdx) :
+    ∃ z ∈ l.ents, z.index = i ∧ l.entryTerm i = some z.term := by
+  have hb := gapFree_bounds hg hne
+  rw [Log.lastIdx_eq] at hhi; rw [Log.firstIdx_eq] at hlo
+  obtain ⟨z, hz, hzi⟩ := contigFrom_mem_index ((gapFree_iff _).mp hg) i hlo (by omega)
+  exact ⟨z, hz, hzi, hzi ▸ entryTerm_mem hg h1 hz⟩
+
+/-- outside the range (and away from the purge boundary) `entry_term` is `None`; above the last index it
+    is never `Some` unless it is the purge boundary of an empty log. -/
+theorem entryTerm_above_last {l : Log} {i : Nat} (hi : l.lastIdx < i) (hne : l.ents ≠ []) (hb : l.pIdx < l.firstIdx ∨ l.pIdx = 0)
+    (hfl : l.firstIdx ≤ l.lastIdx) : l.entryTerm i = none := by
+  unfold Log.entryTerm
+  have hc : (l.lastIdx == 0 || decide (i < l.firstIdx) || decide (i > l.lastIdx)) = true := by
+    simp only [Bool.or_eq_true, beq_iff_eq, decide_eq_true_eq]; omega
+  rw [hc]
+  simp only [↓reduceIte, ite_eq_right_iff, Bool.and_eq_true, decide_eq_true_eq, beq_iff_eq]
+  intro h; omega
+
+/-! ## TermSegments atomics stay consistent (`segOK`) -/
+
+theorem segOK_iff (l : Log) : segOK l = true ↔ ∀ e ∈ l.ents, l.ls ≤ e.index → e.term = l.lt := by
+  simp only [segOK, List.all_eq_true, Bool.or_eq_true, Bool.not_eq_true', decide_eq_false_iff_not, beq_iff_eq]
+  constructor
+  · intro h e he hle
+    rcases h e he with h' | h'
+    · exact absurd hle h'
+    · exact h'
+  · intro h e he
+    by_cases hle : l.ls ≤ e.index
+    · exact Or.inr (h e he hle)
+    · exact Or.inl hle
+
+/-- the fold of `on_append` over a block of strictly newer entries keeps the invariant. -/
+theorem segFold_ok (ents : List Entry) (tail : List Entry) (s : Nat × Nat) (b : Nat)
+    (hinv : ∀ e ∈ ents, s.2 ≤ e.index → e.term = s.1)
+    (hold : ∀ e ∈ ents, e.index < b) (hc : contigFrom b tail = true) :
+    ∀ e ∈ ents ++ tail, (tail.foldl segStep s).2 ≤ e.index → e.term = (tail.foldl segStep s).1 := by
+  induction tail generalizing ents s b with
+  | nil => simpa using hinv
+  | cons x xs ih =>
+    have hcx := (contigFrom_cons b x xs).mp hc
+    have := ih (ents ++ [x]) (segStep s x) (b + 1) ?_ ?_ hcx.2
+    · simpa [List.append_assoc] using this
+    · -- invariant after one step
+      intro e he hle
+      rcases List.mem_append.mp he with he | he
+      · have hlt := hold e he
+        unfold segStep at hle ⊢
+        split at hle
+        · rename_i hterm
+          split at hle
+          · rename_i hidx; simp at hle; omega
+          · rename_i hidx
+            simp only [hterm, hidx, ↓reduceIte]
+            exact hinv e he hle
+        · simp at hle; omega
+      · simp at he; subst he
+        unfold segStep
+        split
+        · rename_i hterm
+          split <;> simpa using hterm
+        · rfl
+    · intro e he
+      rcases List.mem_append.mp he with he | he
+      · have := hold e he; omega
+      · simp at he; subst he; omega
+
+theorem segOK_appendE {l : Log} (hs : segOK l = true) {b : Nat} {tail : List Entry}
+    (hold : ∀ e ∈ l.ents, e.index < b) (hc : contigFrom b tail = true) : segOK (appendE l tail) = true := by
+  rw [segOK_iff] at hs ⊢
+  exact segFold_ok l.ents tail (l.lt, l.ls) b hs hold hc
+
+theorem segOK_removeFrom {l : Log} (hs : segOK l = true) (d : Nat) : segOK (removeFrom l d) = true := by
+  rw [segOK_iff] at hs ⊢
+  intro e he hle
+  exact hs e (List.mem_filter.mp he).1 hle
+
+theorem segOK_resetL (l : Log) : segOK (resetL l) = true := by simp [segOK, resetL]
+
+/-! ## non-decreasing terms -/
+
+theorem termsFrom_weaken {t t' : Nat} {es : List Entry} (h : termsFrom t es = true) (ht : t' ≤ t) :
+    termsFrom t' es = true := by
+  cases es with
+  | nil => rfl
+  | cons x xs =>
+    simp only [termsFrom, Bool.and_eq_true, decide_eq_true_eq] at h ⊢
+    exact ⟨by omega, h.2⟩
+
+theorem termsFrom_append {t : Nat} {a b : List Entry} (h : termsFrom t (a ++ b) = true) :
+    termsFrom t a = true ∧ termsFrom t b = true := by
+  induction a generalizing t with
+  | nil => exact ⟨rfl, by simpa using h⟩
+  | cons x xs ih =>
+    simp only [List.cons_append, termsFrom, Bool.and_eq_true, decide_eq_true_eq] at h ⊢
+    have := ih h.2
+    exact ⟨⟨h.1, this.1⟩, termsFrom_weaken this.2 h.1⟩
+
+/-- every term lies between the lower bound and the term of the last entry. -/
+theorem termsFrom_sandwich {t : Nat} {es : List Entry} (h : termsFrom t es = true) {x : Entry}
+    (hl : es.getLast? = some x) : ∀ y ∈ es, t ≤ y.term ∧ y.term ≤ x.term := by
+  induction es generalizing t with
+  | nil => simp at hl
+  | cons a as ih =>
+    simp only [termsFrom, Bool.and_eq_true, decide_eq_true_eq] at h
+    intro y hy
+    cases as with
+    | nil =>
+      simp at hl hy; subst hl; subst hy; omega
+    | cons b bs =>
+      rw [List.getLast?_cons_cons] at hl
+      have hx := ih h.2 hl
+      rcases List.mem_cons.mp hy with rfl | hy
+      · have := hx b List.mem_cons_self
+        omega
+      · have := hx y hy; omega
+
+/-! ## the fast path of `filter_out_conflicts_and_append` agrees with the slow path -/
+
+theorem mem_takeWhile_pred {p : Entry → Bool} {es : List Entry} {y : Entry} (h : y ∈ es.takeWhile p) : p y = true := by
+  induction es with
+  | nil => simp at h
+  | cons x xs ih =>
+    rw [List.takeWhile_cons] at h
+    split at h
+    · rename_i hp
+      rcases List.mem_cons.mp h with rfl | h
+      · exact hp
+      · exact ih h
+    · simp at h
+
+/-- what a request must look like for the fast path to be sound: contiguous, terms non-decreasing,
+    attached to the log (empty log, or `prev` inside / right before it). -/
+structure ReqOK (l : Log) (prev : Nat) (es : List Entry) : Prop where
+  contig : contigFrom (prev + 1) es = true
+  mono : termsMono es = true
+  att : l.ents = [] ∨ (l.firstIdx ≤ prev + 1 ∧ prev ≤ l.lastIdx)
+
+theorem dropWhile_head_false {p : Entry → Bool} {e : Entry} {rest : List Entry} (h : p e = false) :
+    (e :: rest).dropWhile p = e :: rest := by
+  simp [List.dropWhile_cons, h]
+
+/-- entries of the request inside the follower's range that pass `overlap_safe` do not diverge. -/
+theorem overlap_no_diverge {l : Log} {prev : Nat} {es : List Entry} (hl : LogOK l) (hr : ReqOK l prev es)
+    (hs : overlapSafe l (es.takeWhile (fun e => decide (e.index ≤ l.lastIdx))) = true) :
+    ∀ y ∈ es.takeWhile (fun e => decide (e.index ≤ l.lastIdx)), (!diverges l y) = true := by
+  intro y hy
+  have hyle : y.index ≤ l.lastIdx := by simpa using mem_takeWhile_pred hy
+  have hyes : y ∈ es := List.IsPrefix.mem hy (List.takeWhile_prefix _)
+  have hyge : prev + 1 ≤ y.index := contigFrom_index_ge hr.contig y hyes
+  -- the overlap is non-empty: unpack overlap_safe
+  cases hov : es.takeWhile (fun e => decide (e.index ≤ l.lastIdx)) with
+  | nil => rw [hov] at hy; simp at hy
+  | cons f rest =>
+    rw [hov] at hs hy
+    simp only [overlapSafe, List.head?_cons, Bool.and_eq_true, decide_eq_true_eq, beq_iff_eq] at hs
+    obtain ⟨⟨hls, hft⟩, hlast⟩ := hs
+    -- f is the head of es
+    have hfhead : f.index = prev + 1 := by
+      cases es with
+      | nil => simp at hov
+      | cons a as =>
+        rw [List.takeWhile_cons] at hov
+        split at hov
+        · injection hov with h1 _; subst h1
+          exact ((contigFrom_cons _ _ _).mp hr.contig).1
+        · simp at hov
+    -- terms in the overlap are all `lt`
+    have hmono : termsFrom 0 (f :: rest) = true := by
+      have h0 : termsFrom 0 es = true := hr.mono
+      rw [← List.takeWhile_append_dropWhile (p := fun e => decide (e.index ≤ l.lastIdx)) (l := es), hov] at h0
+      exact (termsFrom_append h0).1
+    have hyterm : y.term = l.lt := by
+      simp only [termsFrom, Bool.and_eq_true, decide_eq_true_eq] at hmono
+      cases hgl : (f :: rest).getLast? with
+      | none => simp at hgl
+      | some x =>
+        rw [hgl] at hlast
+        simp only [beq_iff_eq] at hlast
+        rcases List.mem_cons.mp hy with rfl | hyr
+        · exact hft
+        · have hrl : rest.getLast? = some x := by
+            cases rest with
+            | nil => simp at hyr
+            | cons b bs => rw [List.getLast?_cons_cons] at hgl; exact hgl
+          have := termsFrom_sandwich hmono.2 hrl y hyr
+          omega
+    -- the follower holds an entry there, in its last-term segment
+    have hne : l.ents ≠ [] := by
+      intro h0
+      have : l.lastIdx = 0 := by simp [Log.lastIdx, lastOf, h0]
+      omega
+    have hatt : l.firstIdx ≤ prev + 1 ∧ prev ≤ l.lastIdx := by
+      rcases hr.att with h | h
+      · exact absurd h hne
+      · exact h
+    obtain ⟨z, hz, hzi, hzt⟩ := entryTerm_inrange hl.gap hl.pos hne (i := y.index) (by omega) hyle
+    have hzterm : z.term = l.lt := (segOK_iff l).mp hl.seg z hz (by omega)
+    simp only [diverges, Bool.not_eq_true', Bool.or_eq_false_iff, decide_eq_false_iff_not, bne_eq_false_iff_eq]
+    exact ⟨by omega, by rw [hzt, hzterm, hyterm]⟩
+
+/-- **fast path ≡ slow path** on well-formed inputs: same log, same returned log id. -/
+theorem filterAppend_eq_slow (l : Log) (prev pt : Nat) (es : List Entry) (hl : LogOK l) (hr : ReqOK l prev es)
+    (hnv : ¬ (prev = 0 ∧ pt = 0)) (hacc : l.entryTerm prev = some pt) :
+    (filterAppend l prev pt es).1 = (slowPath l es).1 ∧ (filterAppend l prev pt es).2.1 = (slowPath l es).2.1 := by
+  unfold filterAppend
+  have h1 : (prev == 0 && pt == 0) = false := by
+    rw [Bool.eq_false_iff]; intro h; simp only [Bool.and_eq_true, beq_iff_eq] at h; exact hnv h
+  have h2 : (l.entryTerm prev != some pt) = false := by simp [hacc]
+  simp only [h1, h2, Bool.false_eq_true, ↓reduceIte]
+  split
+  · rename_i hs
+    have hov := overlap_no_diverge hl hr hs
+    have hsplit : es.dropWhile (fun e => !diverges l e) =
+        (es.dropWhile (fun e => decide (e.index ≤ l.lastIdx))).dropWhile (fun e => !diverges l e) := by
+      conv => lhs; rw [← List.takeWhile_append_dropWhile (p := fun e => decide (e.index ≤ l.lastIdx)) (l := es)]
+      exact List.dropWhile_append_of_pos hov
+    cases htail : es.dropWhile (fun e => decide (e.index ≤ l.lastIdx)) with
+    | nil =>
+      rw [htail] at hsplit
+      simp only [List.isEmpty_nil, ↓reduceIte, slowPath, hsplit, List.dropWhile_nil]
+      exact ⟨trivial, trivial⟩
+    | cons e rest =>
+      have hpe : decide (e.index ≤ l.lastIdx) = false := by
+        have := List.head?_dropWhile_not (fun e => decide (e.index ≤ l.lastIdx)) es
+        rw [htail] at this; simpa using this
+      have hdiv : (!diverges l e) = false := by
+        simp only [diverges, Bool.not_eq_false', Bool.or_eq_true, decide_eq_true_eq]
+        left; simpa using hpe
+      rw [htail] at hsplit
+      rw [dropWhile_head_false hdiv] at hsplit
+      have hgt : ¬ e.index ≤ l.lastIdx := by simpa using hpe
+      simp only [List.isEmpty_cons, Bool.false_eq_true, ↓reduceIte, slowPath, hsplit, hgt]
+      exact ⟨trivial, trivial⟩
+  · exact ⟨rfl, rfl⟩
+
+/-! ## what `filter_out_conflicts_and_append` returns and leaves behind -/
+
+theorem getLast?_suffix_cons {a : List Entry} {e : Entry} {rest : List Entry} :
+    (a ++ e :: rest).getLast? = (e :: rest).getLast? := by
+  rw [List.getLast?_append]
+  exact Option.or_of_isSome (by simp)
+
+theorem getLast?_dropWhile_cons {p : Entry → Bool} {es : List Entry} {e : Entry} {rest : List Entry}
+    (h : es.dropWhile p = e :: rest) : (e :: rest).getLast? = es.getLast? := by
+  have : es = es.takeWhile p ++ e :: rest := by rw [← h, List.takeWhile_append_dropWhile]
+  conv => rhs; rw [this]
+  exact getLast?_suffix_cons.symm
+
+/-- the slow path always reports the last entry of the request. -/
+theorem slowPath_ack (l : Log) (es : List Entry) : (slowPath l es).2.1 = es.getLast?.map idOf := by
+  unfold slowPath
+  split
+  · rfl
+  · rename_i e rest hd
+    split <;> simp only [getLast?_dropWhile_cons hd]
+
+/-- every accepting path reports the last entry of the request (no hypotheses). -/
+theorem filterAppend_ack (l : Log) (prev pt : Nat) (es : List Entry)
+    (hacc : (prev = 0 ∧ pt = 0) ∨ l.entryTerm prev = some pt) :
+    (filterAppend l prev pt es).2.1 = es.getLast?.map idOf := by
+  unfold filterAppend
+  split
+  · rfl
+  · rename_i hnv
+    have hnv' : ¬ (prev = 0 ∧ pt = 0) := by simpa using hnv
+    have h2 : l.entryTerm prev = some pt := by rcases hacc with h | h; exact absurd h hnv'; exact h
+    have h3 : (l.entryTerm prev != some pt) = false := by simp [h2]
+    simp only [h3, Bool.false_eq_true, ↓reduceIte]
+    split
+    · split
+      · rfl
+      · rename_i hne
+        cases hd : es.dropWhile (fun e => decide (e.index ≤ l.lastIdx)) with
+        | nil => simp [hd] at hne
+        | cons e rest => simp only [getLast?_dropWhile_cons hd]
+    · exact slowPath_ack l es
+
+theorem appendE_appendE (l : Log) (a b : List Entry) : appendE (appendE l a) b = appendE l (a ++ b) := by
+  simp [appendE, List.foldl_append, List.append_assoc]
+
+theorem appendE_nil (l : Log) : appendE l [] = l := by simp [appendE]
+
+theorem lastIdx_appendE_cons (l : Log) (e : Entry) (rest : List Entry) :
+    (appendE l (e :: rest)).lastIdx = lastOf (e :: rest) := by
+  rw [Log.lastIdx_eq, appendE_ents, lastOf_append_cons]
+
+/-- a block that lies entirely behind the log is appended as it is. -/
+theorem slowPath_all_beyond (L : Log) (x : Entry) (xs : List Entry) (h : L.lastIdx < x.index) :
+    (slowPath L (x :: xs)).1 = appendE L (x :: xs) := by
+  have hdiv : (!diverges L x) = false := by
+    simp only [diverges, Bool.not_eq_false', Bool.or_eq_true, decide_eq_true_eq]
+    left; omega
+  have hd : (x :: xs).dropWhile (fun e => !diverges L e) = x :: xs := by
+    simp [List.dropWhile_cons, hdiv]
+  have hgt : ¬ x.index ≤ L.lastIdx := by omega
+  simp only [slowPath, hd, hgt, ↓reduceIte]
+
+/-- composition of the slow path over a split request `E1 ++ E2` (contiguity only). -/
+theorem slowPath_append (l : Log) (p : Nat) (E1 E2 : List Entry) (hc : contigFrom (p + 1) (E1 ++ E2) = true) :
+    (slowPath l (E1 ++ E2)).1 = (slowPath (slowPath l E1).1 E2).1 := by
+  have hc1 := ((contigFrom_append _ _ _).mp hc).1
+  have hc2 := ((contigFrom_append _ _ _).mp hc).2
+  cases hd : E1.dropWhile (fun e => !diverges l e) with
+  | nil =>
+    -- nothing in E1 diverges: the log is untouched by E1, and the scan continues in E2
+    have hall := dropWhile_nil_all hd
+    have h1 : (slowPath l E1).1 = l := by simp [slowPath, hd]
+    have h2 : (E1 ++ E2).dropWhile (fun e => !diverges l e) = E2.dropWhile (fun e => !diverges l e) :=
+      List.dropWhile_append_of_pos hall
+    rw [h1]
+    simp only [slowPath, h2]
+    split <;> rfl
+  | cons e rest =>
+    obtain ⟨hct, _, _, _, _, hlen⟩ := dropWhile_contig hc1 hd
+    have h2 : (E1 ++ E2).dropWhile (fun e => !diverges l e) = e :: (rest ++ E2) := by
+      rw [List.dropWhile_append, hd]; simp
+    -- the log after E1
+    have h1 : (slowPath l E1).1 = appendE (if e.index ≤ l.lastIdx then removeFrom l e.index else l) (e :: rest) := by
+      simp only [slowPath, hd]; split <;> rfl
+    have hm : (slowPath l (E1 ++ E2)).1 =
+        appendE (if e.index ≤ l.lastIdx then removeFrom l e.index else l) (e :: rest ++ E2) := by
+      simp only [slowPath, h2]; split <;> rfl
+    rw [hm, h1]
+    cases E2 with
+    | nil => simp [slowPath, appendE_nil]
+    | cons x xs =>
+      have hxi : x.index = p + 1 + E1.length := ((contigFrom_cons _ _ _).mp hc2).1
+      have hlast : (appendE (if e.index ≤ l.lastIdx then removeFrom l e.index else l) (e :: rest)).lastIdx
+          = p + E1.length := by
+        rw [lastIdx_appendE_cons, lastOf_contig hct (by simp)]
+        simp only [List.length_cons] at hlen ⊢; omega
+      rw [slowPath_all_beyond _ x xs (by rw [hlast]; omega), appendE_appendE]
+
+/-- the slow path keeps `LogOK` and leaves the request's last entry (up to payload) at its index. -/
+theorem slowPath_post (l : Log) (p : Nat) (E : List Entry) (hl : LogOK l)
+    (hc : contigFrom (p + 1) E = true) (hatt : l.ents = [] ∨ (l.firstIdx ≤ p + 1 ∧ p ≤ l.lastIdx))
+    {x : Entry} (hx : E.getLast? = some x) :
+    LogOK (slowPath l E).1 ∧ ∃ z ∈ (slowPath l E).1.ents, z.index = p + E.length ∧ z.term = x.term := by
+  have hxmem : x ∈ E := List.mem_of_getLast? hx
+  have hne : E ≠ [] := List.ne_nil_of_mem hxmem
+  have hxi : x.index = p + E.length := by
+    have := lastOf_contig hc hne
+    simp only [lastOf, hx] at this
+    have hpos : 0 < E.length := List.length_pos_iff.mpr hne
+    omega
+  cases hd : E.dropWhile (fun e => !diverges l e) with
+  | nil =>
+    have h1 : (slowPath l E).1 = l := by simp [slowPath, hd]
+    rw [h1]
+    refine ⟨hl, ?_⟩
+    have hnd := dropWhile_nil_all hd x hxmem
+    simp only [diverges, Bool.not_eq_true', Bool.or_eq_false_iff, decide_eq_false_iff_not, bne_eq_false_iff_eq] at hnd
+    have hge := contigFrom_index_ge hc x hxmem
+    have hnel : l.ents ≠ [] := by
+      intro h0; have : l.lastIdx = 0 := by simp [Log.lastIdx, lastOf, h0]
+      omega
+    have hatt' : l.firstIdx ≤ p + 1 ∧ p ≤ l.lastIdx := by
+      rcases hatt with h | h; exact absurd h hnel; exact h
+    obtain ⟨z, hz, hzi, hzt⟩ := entryTerm_inrange hl.gap hl.pos hnel (i := x.index) (by omega) (by omega)
+    refine ⟨z, hz, by omega, ?_⟩
+    rw [hnd.2] at hzt
+    exact (Option.some.inj hzt).symm
+  | cons e rest =>
+    obtain ⟨hct, hge, hpe, hmem, hbef, hlen⟩ := dropWhile_contig hc hd
+    have h1 : (slowPath l E).1 = appendE (if e.index ≤ l.lastIdx then removeFrom l e.index else l) (e :: rest) := by
+      simp only [slowPath, hd]; split <;> rfl
+    rw [h1]
+    have hxt : x ∈ e :: rest := by
+      have := getLast?_dropWhile_cons hd
+      rw [hx] at this
+      exact List.mem_of_getLast? this
+    -- the kept part lies strictly below e.index
+    have hbelow : ∀ y ∈ (if e.index ≤ l.lastIdx then removeFrom l e.index else l).ents, y.index < e.index := by
+      intro y hy
+      split at hy
+      · simpa using (List.mem_filter.mp hy).2
+      · rename_i hgt
+        have := (mem_bounds hl.gap hy).2
+        rw [Log.lastIdx_eq] at hgt; omega
+    have hkept_sub : ∀ y ∈ (if e.index ≤ l.lastIdx then removeFrom l e.index else l).ents, y ∈ l.ents := by
+      intro y hy
+      split at hy
+      · exact (List.mem_filter.mp hy).1
+      · exact hy
+    have hseg0 : segOK (if e.index ≤ l.lastIdx then removeFrom l e.index else l) = true := by
+      split
+      · exact segOK_removeFrom hl.seg _
+      · exact hl.seg
+    -- gap-freeness of the result: reuse the C08 argument in list form
+    have hgap : gapFree ((if e.index ≤ l.lastIdx then removeFrom l e.index else l).ents ++ e :: rest) = true := by
+      by_cases hnel : l.ents = []
+      · have hk : (if e.index ≤ l.lastIdx then removeFrom l e.index else l).ents = [] := by
+          split <;> simp [removeFrom, hnel]
+        rw [hk]; simpa using gapFree_of_contigFrom hct
+      · have hatt' : l.firstIdx ≤ p + 1 ∧ p ≤ l.lastIdx := by
+          rcases hatt with h | h; exact absurd h hnel; exact h
+        have hb := gapFree_bounds hl.gap hnel
+        have hcf := (gapFree_iff _).mp hl.gap
+        split
+        · rename_i hle
+          rw [Log.lastIdx_eq] at hle; rw [Log.firstIdx_eq, Log.lastIdx_eq] at hatt'
+          obtain ⟨hf1, hf2⟩ := filter_lt_contig hcf e.index (by omega) (by omega)
+          apply gapFree_of_contigFrom (s := firstOf l.ents)
+          rw [removeFrom_ents, contigFrom_append]
+          refine ⟨hf1, ?_⟩
+          rw [hf2]
+          have : firstOf l.ents + (e.index - firstOf l.ents) = e.index := by omega
+          rw [this]; exact hct
+        · rename_i hgt
+          apply gapFree_append hl.gap hct _ hl.pos
+          right
+          rw [Log.lastIdx_eq] at hgt hatt'
+          apply tail_starts_after hc (by omega) hmem (by omega)
+          intro y hy hlt
+          have := hbef y hy hlt
+          simp only [diverges, Bool.not_eq_true', Bool.or_eq_false_iff, decide_eq_false_iff_not] at this
+          rw [Log.lastIdx_eq] at this; omega
+    refine ⟨⟨by rw [appendE_ents]; exact hgap, ?_, segOK_appendE hseg0 hbelow hct⟩, x, ?_, hxi, rfl⟩
+    · intro y hy
+      rw [appendE_ents] at hy
+      rcases List.mem_append.mp hy with hy | hy
+      · exact hl.pos y (hkept_sub y hy)
+      · have := contigFrom_index_ge hct y hy; omega
+    · rw [appendE_ents]; exact List.mem_append_right _ hxt
+
+/-! ## closed forms of the follower step -/
+
+/-- the request passes the workflow's term check and `check_append_entries_request_is_legal`. -/
+def Accepts (st : FState) (r : Req) : Prop :=
+  st.term ≤ r.term ∧ ((r.prev = 0 ∧ r.prevTerm = 0) ∨ st.log.entryTerm r.prev = some r.prevTerm)
+
+theorem checkLegal_success_iff (t : Nat) (r : Req) (l : Log) :
+    (checkLegal t r l).1.isSuccess = true ↔
+      t ≤ r.term ∧ ((r.prev = 0 ∧ r.prevTerm = 0) ∨ l.entryTerm r.prev = some r.prevTerm) := by
+  unfold checkLegal
+  split
+  · rename_i h; simp [Ack.isSuccess]; omega
+  · rename_i h
+    split
+    · rename_i hv
+      simp only [Bool.and_eq_true, beq_iff_eq] at hv
+      simp [Ack.isSuccess, hv]; omega
+    · rename_i hv
+      have hv' : ¬ (r.prev = 0 ∧ r.prevTerm = 0) := by simpa using hv
+      split
+      · rename_i t' ht
+        split
+        · rename_i heq
+          have : t' = r.prevTerm := by simpa using heq
+          simp [Ack.isSuccess, ht, this]; omega
+        · rename_i hne
+          have : ¬ t' = r.prevTerm := by simpa using hne
+          simp [Ack.isSuccess, ht, hv', this]
+      · rename_i ht
+        simp [Ack.isSuccess, ht, hv']
+
+theorem accepted_iff (st : FState) (r : Req) : (stepReq st r).2.isSuccess = true ↔ Accepts st r := by
+  unfold stepReq stepReqT Accepts
+  split
+  · rename_i h; simp [Ack.isSuccess]; omega
+  · rename_i h
+    simp only [handleAppend]
+    split
+    · rename_i hs
+      simp only [Ack.isSuccess, true_iff]
+      exact (checkLegal_success_iff _ _ _).mp hs
+    · rename_i hs
+      constructor
+      · intro h'; exact absurd h' hs
+      · intro h'; exact absurd ((checkLegal_success_iff _ _ _).mpr h') hs
+
+/-- the log an accepted request leaves. -/
+def logAfter (l : Log) (r : Req) : Log :=
+  if r.ents.isEmpty then l else (filterAppend l r.prev r.prevTerm r.ents).1
+
+/-- the match position an accepted request is acknowledged with. -/
+def matchAfter (l : Log) (r : Req) : Option (Nat × Nat) :=
+  if r.ents.isEmpty then l.lastLogId else (filterAppend l r.prev r.prevTerm r.ents).2.1
+
+def commitAfter (c : Nat) (l' : Log) (r : Req) : Nat :=
+  match ifUpdateCommit c l'.lastIdx r.commit with | some x => x | none => c
+
+theorem stepReq_accepted {st : FState} {r : Req} (h : Accepts st r) :
+    stepReq st r =
+      ({ term := r.term, commit := commitAfter st.commit (logAfter st.log r) r, log := logAfter st.log r },
+       .success st.term (matchAfter st.log r)) := by
+  have hchk := (checkLegal_success_iff st.term r st.log).mpr h
+  unfold stepReq stepReqT
+  have ht : ¬ st.term > r.term := by have := h.1; omega
+  simp only [ht, ↓reduceIte, handleAppend, hchk, logAfter, matchAfter, commitAfter]
+  have hterm : (if st.term < r.term then r.term else st.term) = r.term := by
+    have := h.1; split <;> omega
+  rw [hterm]
+  by_cases he : r.ents.isEmpty = true <;> simp [he] <;> rfl
+
+theorem stepReq_rejected {st : FState} {r : Req} (h : ¬ Accepts st r) :
+    (stepReq st r).1.log = st.log ∧ (stepReq st r).1.commit = st.commit := by
+  unfold stepReq stepReqT
+  split
+  · exact ⟨rfl, rfl⟩
+  · simp only [handleAppend]
+    split
+    · rename_i hs
+      exact absurd ((checkLegal_success_iff _ _ _).mp hs) h
+    · exact ⟨rfl, rfl⟩
+
 end DEngine.Repl
